@@ -455,3 +455,52 @@ def c07_family(tier, n):
         s['quiet_ms'] = 600
 
     return out
+
+
+# ---- C06 family: kill / restart / silent consumers ----------------------------------------------------------------------------
+
+C06_CT = 1000     # ZMQ_CONN_TIMEOUT used by most C06 scenarios (a module-level constant of zeromq.py set by the harness)
+
+
+def c06_family(tier):
+    out    = []
+    full   = tier == 'thorough'
+    N      = 2000
+    delays = [0, 300, C06_CT + 200]
+    when   = 'any' if full else 'next'
+
+    def mk(name, fs, victims, delays, ct=C06_CT, required_note=None):
+        s = timely(scn(name, fs), quiet=10**9, horizon=1200)
+        s['conn_timeout'] = ct
+        s['faults'] = {'kinds': ['kill'], 'victims': victims, 'restart_delays': delays, 'budget': 1, 'when': when,
+                       'after_ms': ct + 5 * 100 + 700}
+        s['c06_bound'] = ct + 5 * 100
+        out.append(s)
+
+    period = 40
+    ch  = lambda req: [src(N, required='mid' if req else None, period=period), relay('mid', ['src'], required='snk' if req else None), sink('snk', ['mid'])]
+    tee = lambda: [src(N, period=period), sink('a', ['src']), sink('b', ['src;main>x'])]
+    rj  = lambda: rejoin(N, 2, ['pass', 'pass'], ['b1', 'b2;main>other'], required=False, period=period)
+
+    for v in ['src', 'mid', 'snk']:
+        mk(f'chain3/{v}', ch(False), [v], delays)
+
+    for v in ['src', 'a'] if not full else ['src', 'a', 'b']:
+        mk(f'tee/{v}', tee(), [v], delays)
+
+    for v in ['src', 'b1', 'snk'] if full else ['b1', 'snk']:
+        mk(f'rejoin2/{v}', rj(), [v], delays)
+
+    # a consumer that is not a required output dies and never returns: the others keep going after the connection timeout
+    mk('tee-dies/b', tee(), ['b'], [None])
+    mk('rejoin2-dies/b2?', [src(N, period=period), relay('b1', ['src']), sink('snk', ['b1']), sink('b2', ['src'])], ['b2'], [None])
+
+    # a required output is missing for 2 s: the publisher waits for it and resumes when it is back
+    mk('chain3-required/mid', ch(True), ['mid'], [2000])
+    mk('chain3-required/snk', ch(True), ['snk'], [2000])
+
+    if full:
+        mk('chain3-ct5000/mid', ch(False), ['mid'], [0, 5200], ct=5000)
+        mk('tee-ct5000/a', tee(), ['a'], [0, 5200], ct=5000)
+
+    return out
